@@ -209,11 +209,18 @@ func vLoc() *time.Location {
 	return time.UTC
 }
 
-//verif: prop=C03 bounds="Time/Timep/Times: seconds symbolic inside the int64-nanosecond range x nanoseconds in {0,1,999999999} and two instants outside it (TimeFull path), locations UTC/Local/FixedZone: delivered time Equal to the input with the same location"
+//verif: prop=C03 bounds="Time/Timep/Times: seconds symbolic inside the int64-nanosecond range x nanoseconds in {0,1,999999999} and two instants outside it plus symbolic seconds far outside it, where UnixNano wraps (TimeFull path), locations UTC/Local/FixedZone: delivered time Equal to the input with the same location"
 func VC03_Time() {
 	vrt.SolverHint("int") // (sec*1e9+nsec)/1e9 round trips
 	var t time.Time
-	switch vrt.Choice("range", 4) {
+	switch vrt.Choice("range", 5) {
+	case 4:
+		// seconds symbolic far outside the int64-nanosecond range (where UnixNano wraps around), up to about
+		// year +-36000: the full-time representation must carry the instant
+		sec := vrt.Int64("farsec")
+		vrt.Assume(sec > -(1<<40) && sec < 1<<40)
+		vrt.Assume(sec > 9300000000 || sec < -9300000000)
+		t = time.Unix(sec, 0)
 	case 0:
 		// seconds symbolic over the whole int64-nanosecond range, nanoseconds from the boundary menu (a symbolic
 		// nanosecond part puts a 30-bit mask under the division by 1e9, which no back end decides in time)
